@@ -2,16 +2,18 @@
 (* C36: every recorded Pairing Request / Pairing Response pair of the real security managers (and    *)
 (* every cell of the real io_capabilities_matrix) must be a row of the Core specification's tables   *)
 (* as transcribed in IoCaps.tla.                                                                     *)
-(*   {"e":"Reset","kind":0|1|2,"in":0..2,"out":0..1,"mitm":b,"bond":b,"oob":b,"sync":n}            *)
-(*   {"e":"Req","io","oobf","auth","maxkey","idist","rdist","oobdata":b,                             *)
+(* Rows are independent of each other (each Req is sent to a fresh manager and connection).          *)
+(*   {"e":"Reset",...}                                   a new configuration follows (no content)      *)
+(*   {"e":"Req","kind":0|1|2,"in":0..2,"out":0..1,"mitm":b,                                         *)
+(*            "io","oobf","auth","maxkey","idist","rdist","oobdata":b,                               *)
 (*            "rsp":b,"rio","roob","rauth", "alg":method,"family":"legacy"|"lesc"|"none","oop","olen",..} *)
 (*   {"e":"Matrix","in","out","io","lio","legacy":method,"lesc":method}                              *)
 EXTENDS IoCaps, Json, IOUtils, TLC, Integers, Sequences
 
 Tr == ndJsonDeserialize(IOEnv.TRACE)
 
-VARIABLES l, cfg
-tvars == <<l, cfg>>
+VARIABLE l
+tvars == <<l>>
 Ev == Tr[l]
 
 ReqValid(ev) == ev.io \in 0..4 /\ ev.oobf \in 0..1 /\ ev.maxkey \in 7..16 /\ ev.idist \in 0..15 /\ ev.rdist \in 0..15
@@ -22,6 +24,7 @@ TableOnly(ev)  == MethodIgnoringMitm(ev.io, ev.oobf = 1, ev.auth % 32, ev.rio, e
 Lesc(ev)       == UseLesc(ev.auth % 32, ev.rauth)
 
 ReqRow(ev) ==
+    LET cfg == [kind |-> ev.kind, in |-> ev.in, out |-> ev.out] IN
     IF ~ReqValid(ev) \/ (cfg.kind = 1 /\ ~SC(ev.auth % 32))       \* malformed, or legacy pairing asked from the LESC-only manager
     THEN ~ev.rsp /\ ev.oop = 5 /\ ev.olen = 2
     ELSE /\ ev.rsp
@@ -37,9 +40,9 @@ MatrixRow(ev) ==
     /\ ev.lesc   = IoMethod(TRUE,  IoCapOf(ev.in, ev.out), ev.io)
 
 Explain(ev) ==
-    \/ ev.e = "Reset"  /\ cfg' = [kind |-> ev.kind, in |-> ev.in, out |-> ev.out]
-    \/ ev.e = "Req"    /\ ReqRow(ev) /\ UNCHANGED cfg
-    \/ ev.e = "Matrix" /\ MatrixRow(ev) /\ UNCHANGED cfg
+    \/ ev.e = "Reset"
+    \/ ev.e = "Req"    /\ ReqRow(ev)
+    \/ ev.e = "Matrix" /\ MatrixRow(ev)
 
 Resets == {i \in 1..Len(Tr) : Tr[i].e = "Reset"}
 NextReset(i) == IF \E j \in Resets : j > i
@@ -50,20 +53,20 @@ NextReset(i) == IF \E j \in Resets : j > i
 Context(ev) ==
     IF ev.e = "Req" /\ ev.rsp /\ ReqValid(ev)
     THEN [expected |-> Expected(ev), tableonly |-> TableOnly(ev), lesc |-> Lesc(ev),
-          mitm |-> Mitm(ev.auth % 32) \/ Mitm(ev.rauth), expio |-> IoCapOf(cfg.in, cfg.out)]
+          mitm |-> Mitm(ev.auth % 32) \/ Mitm(ev.rauth), expio |-> IoCapOf(ev.in, ev.out)]
     ELSE [expected |-> "failed"]
 
-TInit == l = 1 /\ cfg = [kind |-> 0, in |-> 0, out |-> 0]
+TInit == l = 1
 
 TNext ==
     \/ /\ l <= Len(Tr)
        /\ IF ENABLED Explain(Ev)
           THEN Explain(Ev) /\ l' = l + 1
           ELSE PrintT(<<"CONTEXT", l, ToJson(Context(Ev))>>) /\ PrintT(<<"MISMATCH", l>>)
-               /\ l' = (IF Ev.e = "Matrix" THEN l + 1 ELSE NextReset(l)) /\ UNCHANGED cfg
+               /\ l' = l + 1                          \* rows are independent: go on with the next one
     \/ /\ l = Len(Tr) + 1
        /\ PrintT(<<"TRACE_DONE", Len(Tr)>>)
-       /\ l' = l + 1 /\ UNCHANGED cfg
+       /\ l' = l + 1
 
 TSpec == TInit /\ [][TNext]_tvars
 =============================================================================
